@@ -6,6 +6,7 @@
     tzgen.idxutc <hex tzif> [us…]         Gen.tzfile_findLastTransition dt in_utc=True
     tzgen.ts [us…]                        Gen.datetimeToTimestamp
     tzgen.range.fromutc <std> <dst> <hasdst> <table> [us…]
+    tzgen.local.fromutc <std> <dst> <hasdst> <table> [us…]   Gen.tzinfo_fromutc on the tzlocal model
     tzgen.range.wall    <std> <dst> <hasdst> <table> [us…] <stdabbr hex> <dstabbr hex>   amb;isdst,off,dst,name;isdst,off,dst,name
 -/
 import DateutilVerif.Ops.Zones
@@ -62,6 +63,9 @@ def handle (op : String) (args : List String) : Option String :=
       let sa ← parseHexBytes? sa; let da ← parseHexBytes? da
       let z := { z with stdAbbr := sa, dstAbbr := da }
       pure ("ok " ++ " ".intercalate (ws.map (rangeWall z)))
+  | "tzgen.local.fromutc", _ =>
+      (rangeOf args).map fun (z, ts) =>
+        "ok " ++ " ".intercalate (ts.map fun us => showRDt (Gen.tzinfo_fromutc (localZone z) (dtOf us false true)))
   | _, _ => none
 
 end Ops.TzGen
